@@ -6,6 +6,7 @@ import (
 	"encoding/base64"
 	"fmt"
 	"strings"
+	"time"
 
 	"verifsim/hx"
 	"verifsim/simkern"
@@ -143,8 +144,19 @@ func C12(e *simkern.Env) {
 			h.SetRehydrateFunc(func(state interface{}, method string) error { rehydrates++; return nil })
 		}
 		cacheMain := tp.Pick(0, -1)
+		// one run in four has a history: a short token TTL, a stream that is
+		// continued over time (its cursor is re-minted on every turn, its call
+		// token is not), and forged presentations placed around the instant the
+		// call token's age crosses the TTL
+		aged := !sweep && tp.Bool(1, 4)
+		var ttl time.Duration
+		if aged {
+			ttl = time.Duration(tp.Pick(20, 60, 600)) * time.Second
+			cacheMain = tp.Pick(-1, -1, 1)
+			e.Knob("token_ttl", ttl.String())
+		}
 		// both workers report the same server id so that refusal bodies are comparable byte for byte
-		cl := httpw.NewCluster(httpw.Config{Key: key, CacheSizes: []int{cacheMain, 0}, BatchLimit: 1, NoTwin: true, Setup: setup, WithAuth: true, ServerIDs: []string{"w", "w"}})
+		cl := httpw.NewCluster(httpw.Config{Key: key, TTL: ttl, CacheSizes: []int{cacheMain, 0}, BatchLimit: 1, NoTwin: true, Setup: setup, WithAuth: true, ServerIDs: []string{"w", "w"}})
 		// a second real deployment with another key (lengths 16..64)
 		fkey := bytes.Repeat([]byte{byte(1 + tp.Draw(200))}, 16+tp.Draw(49))
 		switch tp.Draw(6) {
@@ -183,6 +195,11 @@ func C12(e *simkern.Env) {
 			return r.ProduceCalls + r.ExchangeCalls + r.CancelCalls
 		}
 		// present sends a continuation with the given tokens and judges the refusal.
+		// needNotConsult: the next presentation carries an altered CALL token to
+		// an instance that may still hold the call in its cache — the server
+		// then has no need to consult the call token, and serving the turn from
+		// the genuine cursor is within the property; a refusal is judged as ever
+		needNotConsult := false
 		present := func(site, what string, sig bool, method, kind string, nonce int64, id httpw.Ident, inst *httpw.Instance, cursor, call string, cancel bool) {
 			var in []int64
 			if kind == "exchange" && !cancel {
@@ -194,6 +211,10 @@ func C12(e *simkern.Env) {
 			nontrivial++
 			if resp.Panicked != nil {
 				e.Violate("panic-on-forged-token", site, "%s: panic escaped ServeHTTP: %v", what, resp.Panicked)
+				return
+			}
+			if needNotConsult && resp.Status == 200 {
+				sim.Probe("call-token-not-consulted:" + site)
 				return
 			}
 			if resp.Status < 400 || resp.Status >= 500 {
@@ -237,6 +258,62 @@ func C12(e *simkern.Env) {
 					return
 				}
 				cancel := tp.Bool(1, 5)
+				if aged {
+					// genuine turns spread over time on the caching instance; each
+					// answer carries the next cursor
+					inst := cl.Inst[0]
+					cur := t.Cursor
+					born, minted := time.Now(), time.Now()
+					turns := 2 + tp.Draw(3)
+					step := ttl * time.Duration(60+tp.Draw(30)) / 100 / time.Duration(turns)
+					done := 0
+					for k := 0; k < turns && !e.Violated(); k++ {
+						time.Sleep(step)
+						if time.Since(born) > ttl*95/100-2*time.Second { // token times have one-second resolution: stay clear of the boundary itself
+							break
+						}
+						var in []int64
+						if kind == "exchange" {
+							in = []int64{int64(k + 1)}
+						}
+						nt := httpw.Decode(httpw.Post(inst, "/"+method+"/exchange", httpw.ContBody(cur, t.Call, false, in, false, hx.Meta{}), id, nil))
+						if nt.Resp.Status != 200 || nt.Cursor == "" {
+							e.Violate("genuine-token-refused", "control", "turn %d of a genuine stream, call token aged %v of ttl %v, refused: %v", k+1, time.Since(born), ttl, nt.Err)
+							break
+						}
+						cur, minted = nt.Cursor, time.Now()
+						done++
+						sim.Probe("aged-genuine-turn")
+					}
+					if done == 0 || e.Violated() {
+						continue
+					}
+					// now on one side or the other of call-token-age == TTL, the
+					// cursor still young
+					past := tp.Bool(2, 3)
+					if past {
+						if age := time.Since(born); age <= ttl {
+							time.Sleep(ttl - age + ttl/20 + 2*time.Second)
+						}
+						sim.Fault("call-token-ages-past-ttl")
+					}
+					if time.Since(minted) > ttl*9/10 {
+						continue // the cursor is (nearly) out of date itself: another class of refusal
+					}
+					bad := tokMuts[tp.Draw(2)].fn(t.Call, tp)
+					fc := tokMuts[tp.Draw(2)].fn(cur, tp)
+					sim.Fault("call-flip-after-history")
+					n := 1 + tp.Draw(2)
+					for k := 0; k < n && !e.Violated(); k++ {
+						needNotConsult = !past
+						present("call/altered-after-history", fmt.Sprintf("genuine young cursor with an altered call token, caching instance, presentation %d after a %d-turn history", k+1, turns), true, method, kind, nonce, id, inst, cur, bad, cancel)
+						needNotConsult = false
+					}
+					if !e.Violated() {
+						present("cursor/altered-after-history", "altered cursor after the same history", true, method, kind, nonce, id, inst, fc, t.Call, cancel)
+					}
+					continue
+				}
 				if sweep {
 					// complete sweep: every byte position of the cursor (on the main
 					// instance) and of the call token (on the cache-less instance)
@@ -303,7 +380,7 @@ func C12(e *simkern.Env) {
 				}
 			}
 		})
-		reason, _ := sim.Run(simkern.RunOpts{MaxSteps: 400000, Done: sim.RootsDone})
+		reason, _ := sim.Run(simkern.RunOpts{MaxSteps: 400000, Done: sim.RootsDone, IdleStepMax: ttl / 100})
 		if !e.Violated() {
 			for i := 1; i < len(sigBodies); i++ {
 				if !bytes.Equal(sigBodies[i], sigBodies[0]) {
@@ -333,11 +410,11 @@ func init() {
 	for _, m := range tokMuts {
 		kinds = append(kinds, "cursor-"+m.name, "call-"+m.name)
 	}
-	kinds = append(kinds, "foreign-key", "swap-kinds", "byte-sweep")
+	kinds = append(kinds, "foreign-key", "swap-kinds", "byte-sweep", "call-token-ages-past-ttl", "call-flip-after-history")
 	Registry["C12"] = &Info{
 		Run:   C12,
 		Level: "fault_enumeration",
-		Rule:  "the network/adversary alters tokens in flight: each run starts 3-7 real streams (producer/exchange, anonymous or authenticated) and presents altered cursors (to a cached and to a cache-less instance) and altered call tokens (to the cache-less instance, where the server must consult them): single-bit flips, multi-byte overwrites, extension, truncation above and below the minimum length, version byte, base64 alphabet/padding/newline/garbage variants, tokens minted by a second real deployment under a foreign key of 16..64 bytes, and the two token kinds swapped; as tick, exchange input and cancel. One quick run in eight is a complete sweep of every byte position of one cursor and one call token. distinct = schedule fingerprint (includes the mutation choices); the deployment key has 16-64 bytes and the foreign key is a random one or a near miss of it (same leading bytes with another tail, NUL-padded, one byte shorter/longer, last bit flipped)",
+		Rule:  "the network/adversary alters tokens in flight: each run starts 3-7 real streams (producer/exchange, anonymous or authenticated) and presents altered cursors (to a cached and to a cache-less instance) and altered call tokens (to the cache-less instance, where the server must consult them): single-bit flips, multi-byte overwrites, extension, truncation above and below the minimum length, version byte, base64 alphabet/padding/newline/garbage variants, tokens minted by a second real deployment under a foreign key of 16..64 bytes, and the two token kinds swapped; as tick, exchange input and cancel. One run in four gives the tokens a history instead: a short TTL (20 s..10 min), 2-4 genuine turns spread over simulated time on the caching instance (the cursor is re-minted each turn, the call token ages), then an altered call token with the young genuine cursor, and an altered cursor, presented just before or just after the call token's age crosses the TTL. One quick run in eight is a complete sweep of every byte position of one cursor and one call token. distinct = schedule fingerprint (includes the mutation choices); the deployment key has 16-64 bytes and the foreign key is a random one or a near miss of it (same leading bytes with another tail, NUL-padded, one byte shorter/longer, last bit flipped)",
 		Real:  []string{"vgirpc.HttpServer.handleStreamExchange, openToken / sealToken (XChaCha20-Poly1305), resolveCall, call-state cache", "a second real HttpServer with another key as the foreign minter"},
 		Stub:  []string{"HTTP transport", "adversary", "scripted states with call counters", "counting rehydrate callback and dispatch hook"},
 		Quick: 480, Thorough: 60000,
